@@ -8,11 +8,11 @@ import (
 	"context"
 	"database/sql/driver"
 	"fmt"
+	"github.com/yandex/mysync/internal/verif/emu"
 	"runtime"
 	"runtime/debug"
 	"sort"
 	"strings"
-	"sync"
 	"testing/synctest"
 	"time"
 
@@ -38,7 +38,12 @@ type Proc struct {
 }
 
 type World struct {
-	mu sync.Mutex // real mutex: guards pending/hung/registries touched by non-scheduler goroutines
+	mu emu.Mutex // real mutex: guards pending/hung/registries touched by non-scheduler goroutines
+
+	// Free: free-running mode (race pass only). A call is executed at once by the calling goroutine
+	// under freeMu; nothing is parked, no scheduler decides, no deviation is injected.
+	Free   bool
+	freeMu emu.Mutex
 
 	Servers map[string]*Server
 	ZK      *ZKServer
@@ -262,6 +267,29 @@ func (w *World) Now() time.Duration {
 // Gate parks the calling goroutine until the scheduler answers the call.
 func (w *World) Gate(c *Call) Reply {
 	c.reply = make(chan Reply, 1)
+	if w.Free {
+		w.freeMu.Lock()
+		pt := Point{Idx: len(w.Trace), Proc: c.Proc, Kind: c.Kind, Target: c.Target, Op: c.Op, Mut: c.Mut, T: w.Now()}
+		if p := w.Procs[c.Proc]; p != nil && p.Crashed {
+			c.reply <- Reply{Err: fmt.Errorf("process %s is dead", c.Proc), Delay: FailLatency, ZK: ZKReply{Err: ErrConnectionClosed}}
+		} else {
+			w.execute(c, &pt, Deviation{})
+		}
+		w.freeMu.Unlock()
+		var done <-chan struct{}
+		if c.Ctx != nil {
+			done = c.Ctx.Done()
+		}
+		select {
+		case r := <-c.reply:
+			if r.Delay > 0 {
+				time.Sleep(r.Delay)
+			}
+			return r
+		case <-done: // a call the fake parked (blocked / hung) ends at the caller's deadline
+			return Reply{Err: c.Ctx.Err()}
+		}
+	}
 	c.gid = callSite()
 	c.key = c.Proc + "|" + c.Target + "|" + c.Kind + "|" + c.Op
 	w.mu.Lock()
@@ -787,6 +815,10 @@ func (w *World) Dump(filter func(path string, data []byte) (string, bool)) strin
 // SQL entry point used by the sqlx shim
 
 func (w *World) DBOpened(proc string) {
+	if w.Free {
+		w.freeMu.Lock()
+		defer w.freeMu.Unlock()
+	}
 	w.mu.Lock()
 	if p := w.Procs[proc]; p != nil {
 		p.OpenDB++
@@ -796,6 +828,10 @@ func (w *World) DBOpened(proc string) {
 }
 
 func (w *World) DBClosed(proc string) {
+	if w.Free {
+		w.freeMu.Lock()
+		defer w.freeMu.Unlock()
+	}
 	w.mu.Lock()
 	if p := w.Procs[proc]; p != nil {
 		p.OpenDB--
